@@ -1,19 +1,21 @@
 ---------------------------- MODULE MC_AtMostOne ----------------------------
-EXTENDS AtMostOne, TLC, Json
+EXTENDS AtMostOne, TLC, Json, SequencesExt
 Key == ToJson(<<n, helpers>>)
 KeyP == ToJson(<<n', helpers'>>)
-RECURSIVE SetToSeqT(_)
 \* clause set as a sorted sequence of [i, b, p] for comparison with the real tracker
-ClsSeq(S) == LET RECURSIVE F(_)
-                 F(T) == IF T = {} THEN <<>>
-                         ELSE LET m == CHOOSE x \in T : \A y \in T : x[1] < y[1] \/ (x[1] = y[1] /\ x[2] <= y[2])
-                              IN <<<<m[1], m[2], IF m[3] THEN 1 ELSE 0>>>> \o F(T \ {m})
-             IN F(S)
-SetToSeqT(S) == ClsSeq(S)
+ClsSeq(S) == LET q == SetToSortSeq(S, LAMBDA x, y : x[1] < y[1] \/ (x[1] = y[1] /\ x[2] < y[2]))
+             IN [k \in DOMAIN q |-> <<q[k][1], q[k][2], IF q[k][3] THEN 1 ELSE 0>>]
 MCInit == Init /\ PrintT("INIT|" \o Key \o "|" \o ToJson([n |-> 0, helpers |-> 0, cls |-> <<>>]))
 MCNext == \/ Add /\ PrintT("EDGE|" \o Key \o "|" \o ToJson([op |-> "add"]) \o "|" \o KeyP \o "|"
                           \o ToJson([n |-> n', helpers |-> helpers', cls |-> ClsSeq(cls')]))
           \/ ReAdd /\ PrintT("EDGE|" \o Key \o "|" \o ToJson([op |-> "readd"]) \o "|" \o KeyP \o "|"
                             \o ToJson([n |-> n', helpers |-> helpers', cls |-> ClsSeq(cls')]))
 MCSpec == MCInit /\ [][MCNext]_vars
+
+\* the quadratic invariants are evaluated for every n up to 40 and around every power
+\* of two beyond (where a helper variable is added)
+CheckHere == n <= 40 \/ \E k \in 6..10 : n \in (2 ^ k - 2)..(2 ^ k + 3) \/ n = MaxN
+ExclAt == CheckHere => Excl
+ConsAt == CheckHere => Cons
+CompleteAt == CheckHere => Complete
 =============================================================================
